@@ -335,7 +335,14 @@ SMALL_TARGETS = ['C', 'CC', 'CCO', 'CC(=O)O', 'c1ccccc1', 'CC(C)C', 'C1CC1', 'C1
                  'c1ccccc1C', 'c1ccccc1O', 'CC.CC.CC', 'O.O.O.O', 'C1CC1.O.N']
 SMARTS = ['[C;D1]-[C;!R]=O', '[#6]-[#8]', '[O,N;D1]', 'c:c', '[C;D3](=O)[O;D1]', '[C;r6]', 'C-,=O', '[N;h2]', '[C;z2]', '[O;x1]', '[C;D1].[O;D1]',
           '[#6]1:[#6]:[#6]:[#6]:[#6]:[#6]:1', '[C;a]', 'cO', '[A]-[A]', '[O,S;D2]', '[C;D2;!R]', '[C;r3]', '[N,O].[N,O]', '[#7]~[#6]', 'C=,#C',
-          '[C;h3]', '[c;D3]', '[A].[A]', '[F,Cl,Br,I]-c', '[C;D4]', '[#6]-[#6]-[#8]', '[C;r5,r6]', '[O;D1]=[C;D3]-[O,N]', '[A]1-[A]-[A]-1']
+          '[C;h3]', '[c;D3]', '[A].[A]', '[F,Cl,Br,I]-c', '[C;D4]', '[#6]-[#6]-[#8]', '[C;r5,r6]', '[O;D1]=[C;D3]-[O,N]', '[A]1-[A]-[A]-1',
+          # ring-membership marks on bonds
+          '[#6]-;!@[#6]', '[#6]-;@[#6]', '[#6]=;!@[#6]', '[#6]-,=;!@[#8]', '[#7]-;!@[#6]-;!@[#6]', '[#6]:;@[#6]', '[#6]-;@[#6]-;!@[#6]', '[C;r5,r6]-;!@[A]']
+# the part of the SMARTS language that chython and RDKit read identically on neutral, isotope-free, radical-free targets whose aromatic
+# bonds both toolkits agree on: atomic numbers, lists of them, degree, bond orders - = # :, ring marks @ !@ on bonds
+RDKIT_SMARTS = ['[#6]-;!@[#6]', '[#6]-;@[#6]', '[#6]=;!@[#6]', '[#6]=;@[#6]', '[#6]-,=;!@[#8]', '[#6]-;@[#8]', '[#6]=[#8]', '[#6]-[#8]', '[#6]#[#7]',
+                '[#6]-[#7]', '[#6]:[#6]', '[#6]:;@[#7]', '[#7]-;!@[#6]-;!@[#6]', '[#6]-;@[#6]-;!@[#6]', '[#6]-[#6]-[#8]', '[#6;D3]-[#8]', '[#6;D1]-[#6]',
+                '[#8,#7]-[#6]', '[#6]-;!@[#6]=;!@[#8]', '[#6;D2]-;@[#6;D3]', '[#6]-;!@[#7,#8;D1]', '[#6]-;@[#6]-;@[#6]']
 
 
 def small_enough(gen, limit):
@@ -600,9 +607,186 @@ def own_components(bonds):
     return comp
 
 
+# ---- evaluation of atom / bond primitives WITHOUT the library's __eq__, from attributes recomputed from the raw target graph ----
+
+def _order(bd):
+    return int(bd)
+
+
+def own_bond_in_ring(t, n, m):
+    """the bond n-m lies on a cycle: m is reachable from n without this bond (special, order 8, bonds are ignored as by ring perception)"""
+    if _order(t._bonds[n][m]) == 8:
+        return False
+    seen = {n}
+    todo = [n]
+    while todo:
+        x = todo.pop()
+        for y, bd in t._bonds[x].items():
+            if _order(bd) == 8 or (x == n and y == m) or (x == m and y == n) or y in seen:
+                continue
+            if y == m:
+                return True
+            seen.add(y)
+            todo.append(y)
+    return False
+
+
+def own_cycle_sizes(t, n, limit=14):
+    """sizes of all simple cycles through atom n (special bonds ignored); None when the target is too large to enumerate"""
+    if len(t._atoms) > limit:
+        return None
+    sizes = set()
+    path = [n]
+
+    def rec(x):
+        for y, bd in t._bonds[x].items():
+            if _order(bd) == 8:
+                continue
+            if y == n and len(path) > 2:
+                sizes.add(len(path))
+            elif y not in path:
+                path.append(y)
+                rec(y)
+                path.pop()
+    rec(n)
+    return sizes
+
+
+def own_atom_attrs(t, n):
+    """neighbors, heteroatoms, hybridization as documented, recomputed from the adjacency (not read from the cached labels)"""
+    nb = het = 0
+    orders = []
+    for m, bd in t._bonds[n].items():
+        o = _order(bd)
+        if o == 8:
+            continue
+        nb += 1
+        orders.append(o)
+        if t._atoms[m].atomic_number not in (1, 6):
+            het += 1
+    if 4 in orders:
+        hyb = 4
+    elif 3 in orders or orders.count(2) >= 2:
+        hyb = 3
+    elif 2 in orders:
+        hyb = 2
+    else:
+        hyb = 1
+    return nb, het, hyb
+
+
+def own_atom_match(qa, t, n):
+    """does the pattern atom match target atom n?  True / False, or None when this evaluator does not decide (then the library's
+    own comparison is used for this one pair).  Never calls __eq__ of the library."""
+    from chython.periodictable import Element, QueryElement, AnyElement, ListElement, AnyMetal
+    if isinstance(qa, int):
+        return None                                        # integer-labelled graphs: plain equality, nothing to re-evaluate
+    ta = t._atoms[n]
+    if isinstance(qa, Element):                            # molecule pattern: element, isotope, charge, radical
+        return (qa.atomic_number == ta.atomic_number and (qa.isotope or None) == (ta.isotope or None) and qa.charge == ta.charge
+                and bool(qa.is_radical) == bool(ta.is_radical))
+    if isinstance(qa, AnyMetal) or not isinstance(qa, (QueryElement, AnyElement, ListElement)):
+        return None
+    if isinstance(qa, QueryElement):
+        if qa.atomic_number != ta.atomic_number:
+            return False
+        if qa.isotope and qa.isotope != ta.isotope:
+            return False
+    elif isinstance(qa, ListElement):
+        if ta.atomic_number not in set(qa.atomic_numbers):
+            return False
+    if qa.charge != ta.charge or bool(qa.is_radical) != bool(ta.is_radical):
+        return False
+    nb, het, hyb = own_atom_attrs(t, n)
+    if qa.neighbors and nb not in qa.neighbors:
+        return False
+    if qa.hybridization and hyb not in qa.hybridization:
+        return False
+    if qa.heteroatoms and het not in qa.heteroatoms:
+        return False
+    if qa.implicit_hydrogens and ta.implicit_hydrogens not in qa.implicit_hydrogens:   # stored hydrogen count (C04's business)
+        return False
+    undecided = False
+    if qa.ring_sizes:
+        on_cycle = any(own_bond_in_ring(t, n, m) for m in t._bonds[n])
+        if not qa.ring_sizes[0]:                           # (0,): not in a ring
+            if on_cycle:
+                return False
+        elif not on_cycle:
+            return False
+        else:
+            # ring sizes come from the SSSR (C06).  Independent bounds: a ring of that size through the atom must exist at all;
+            # and every minimum cycle basis contains a smallest cycle through the atom.  In between: not decided here.
+            sizes = own_cycle_sizes(t, n)
+            if sizes is None:
+                undecided = True
+            elif not sizes & set(qa.ring_sizes):
+                return False
+            elif min(sizes) not in qa.ring_sizes:
+                undecided = True
+    return None if undecided else True
+
+
+def own_bond_match(qb, t, n, m):
+    """does the pattern bond match the target bond n-m?  order from the bond's int, ring membership from own_bond_in_ring"""
+    from chython.containers.bonds import Bond, QueryBond
+    if isinstance(qb, int):
+        return None
+    o = _order(t._bonds[n][m])
+    if isinstance(qb, QueryBond):
+        if qb.in_ring is not None and bool(qb.in_ring) != own_bond_in_ring(t, n, m):
+            return False
+        return o in qb.order
+    if isinstance(qb, Bond):
+        return _order(qb) == o
+    return None
+
+
+def check_primitives(ck, p, t, ptxt, ttxt, mk):
+    """every (pattern atom, target atom) and (pattern bond, target bond) pair: the library's == against the independent evaluation"""
+    good = True
+    for x, qa in p._atoms.items():
+        for y, ta in t._atoms.items():
+            mine = own_atom_match(qa, t, y)
+            if mine is None:
+                continue
+            lib = bool(qa == ta)
+            ck.count('search:primitive:atom')
+            if lib != mine:
+                good = False
+                ck.counterexample(f'atom-match:{ptxt}:{x}>{ttxt}:{y}', 'pattern atom == target atom disagrees with the documented primitives evaluated '
+                                  'on independently recomputed attributes (neighbours, heteroatoms, hybridisation, ring membership)',
+                                  {'pattern': ptxt, 'pattern_atom': x, 'target': ttxt, 'target_atom': y}, lib, mine,
+                                  'own evaluation of the query-atom primitives', replay_py=mk + f'print(p._atoms[{x}] == t._atoms[{y}])')
+    seen = set()
+    for x, ms in p._bonds.items():
+        for x2, qb in ms.items():
+            if (x2, x) in seen:
+                continue
+            seen.add((x, x2))
+            for y, ns in t._bonds.items():
+                for y2, ob in ns.items():
+                    if y > y2:
+                        continue
+                    mine = own_bond_match(qb, t, y, y2)
+                    if mine is None:
+                        continue
+                    lib = bool(qb == ob)
+                    ck.count('search:primitive:bond')
+                    if lib != mine:
+                        good = False
+                        ck.counterexample(f'bond-match:{ptxt}:{x}-{x2}>{ttxt}:{y}-{y2}', 'pattern bond == target bond disagrees with order / ring-membership '
+                                          'evaluated independently (order from int(bond), ring membership from a cycle test on the target graph)',
+                                          {'pattern': ptxt, 'pattern_bond': [x, x2], 'target': ttxt, 'target_bond': [y, y2]}, lib, mine,
+                                          'own evaluation of the query-bond primitives',
+                                          replay_py=mk + f'print(p._bonds[{x}][{x2}] == t._bonds[{y}][{y2}], t._bonds[{y}][{y2}].in_ring)')
+    return good
+
+
 def brute(p, t, scope=None):
     """every map the property statement allows, by exhaustive backtracking over injective assignments (independent of the
-    matcher: no linear order, no closures, no component splitting)"""
+    matcher: no linear order, no closures, no component splitting).  Atom and bond match are decided by own_atom_match /
+    own_bond_match (no __eq__ of the library) wherever those evaluators decide."""
     pa = list(p._atoms)
     ta = [n for n in t._atoms if scope is None or n in scope]
     pc = own_components(p._bonds)
@@ -610,8 +794,20 @@ def brute(p, t, scope=None):
     out = []
     f = {}
 
+    acache = {}
+
+    def amatch(x, y):
+        if (x, y) not in acache:
+            r = own_atom_match(p._atoms[x], t, y)
+            acache[(x, y)] = bool(p._atoms[x] == t._atoms[y]) if r is None else r
+        return acache[(x, y)]
+
+    def bmatch(qb, ob, y, y2):
+        r = own_bond_match(qb, t, y, y2)
+        return bool(qb == ob) if r is None else r
+
     def ok(x, y):
-        if not (p._atoms[x] == t._atoms[y]):
+        if not amatch(x, y):
             return False
         for x2, y2 in f.items():
             qb = p._bonds[x].get(x2)
@@ -621,7 +817,7 @@ def brute(p, t, scope=None):
                     return False
                 if (qb is None) != (ob is None):
                     return False
-                if qb is not None and not (qb == ob):
+                if qb is not None and not bmatch(qb, ob, y, y2):
                     return False
             elif tcmp[y] == tcmp[y2]:
                 return False
@@ -656,15 +852,21 @@ def brute_isomorphic(p, t):
             return True
         x = pa[i]
         for y in ta:
-            if y in f.values() or not (p._atoms[x] == t._atoms[y]):
+            am = own_atom_match(p._atoms[x], t, y)
+            if y in f.values() or not (bool(p._atoms[x] == t._atoms[y]) if am is None else am):
                 continue
             good = True
             for x2, y2 in f.items():
                 qb = p._bonds[x].get(x2)
                 ob = t._bonds[y].get(y2)
-                if (qb is None) != (ob is None) or (qb is not None and not (qb == ob)):
+                if (qb is None) != (ob is None):
                     good = False
                     break
+                if qb is not None:
+                    bm = own_bond_match(qb, t, y, y2)
+                    if not (bool(qb == ob) if bm is None else bm):
+                        good = False
+                        break
             if good:
                 f[x] = y
                 if rec(i + 1):
@@ -695,7 +897,7 @@ def search_pair(ck, p, t, rng, ptxt, ttxt, query=False, mk=None, scopes=None, ki
     kws = ', _cython=False' if query else ''
     mk = mk or mol_mk(ptxt, ttxt, query)
     kind = kind or ('query' if query else 'molecule')
-    good = True
+    good = check_primitives(ck, p, t, ptxt, ttxt, mk) if kind != 'int-graph' else True
     ref = brute(p, t)
     refset = {key_of(m) for m in ref}
     ck.case(('search', kind, ptxt, ttxt), nontrivial=bool(ref))
@@ -841,6 +1043,69 @@ def search_automorphism(ck, mols):
             ck.counterexample(f'automorphism:{txt_}', 'get_automorphism_mapping is not exactly the set of non-identity automorphisms',
                               {'molecule': txt_}, got, sorted(want), 'brute-force enumeration of class-preserving bijections',
                               replay_py=f'from chython import smiles; print(list(smiles({txt_!r}).get_automorphism_mapping()))')
+
+
+def search_rdkit(ck, targets):
+    """ring-mark / order / element / degree primitives through the whole matcher against RDKit's SMARTS matcher (an oracle that
+    shares no code with chython), on the common sub-language only and only on targets both toolkits perceive alike"""
+    from chython import smarts
+    try:
+        from rdkit import Chem, RDLogger
+        RDLogger.DisableLog('rdApp.*')
+    except Exception:  # noqa
+        ck.count('search:rdkit:unavailable')
+        return
+    qs = []
+    for s in RDKIT_SMARTS:
+        try:
+            q, rq = smarts(s), Chem.MolFromSmarts(s)
+        except Exception:  # noqa
+            continue
+        if rq is None or len(q) != rq.GetNumAtoms() or q.connected_components_count != 1:
+            continue
+        order = sorted(q._atoms)
+        nonbonded = [(i, j) for i in range(len(order)) for j in range(i + 1, len(order)) if order[j] not in q._bonds[order[i]]]
+        qs.append((s, q, rq, order, nonbonded))
+    for ttxt, t in targets:
+        rm = Chem.MolFromSmiles(ttxt) if ttxt else None
+        if rm is None or rm.GetNumAtoms() != len(t) or len(t) > 30:
+            ck.count('search:rdkit:target-skipped')
+            continue
+        nums = list(t._atoms)
+        if nums != list(range(1, len(t) + 1)) or any(
+                a.GetAtomicNum() != t._atoms[i + 1].atomic_number or a.GetFormalCharge() or t._atoms[i + 1].charge or a.GetIsotope()
+                or t._atoms[i + 1].isotope or a.GetNumRadicalElectrons() or t._atoms[i + 1].is_radical or a.GetAtomicNum() == 1
+                for i, a in enumerate(rm.GetAtoms())):
+            ck.count('search:rdkit:target-skipped')
+            continue
+        rb = {frozenset((b_.GetBeginAtomIdx() + 1, b_.GetEndAtomIdx() + 1)): (4 if b_.GetIsAromatic() else int(b_.GetBondTypeAsDouble())) for b_ in rm.GetBonds()}
+        cb = {frozenset((n, m)): _order(bd) for n, ms in t._bonds.items() for m, bd in ms.items()}
+        if rb != cb:                                          # different aromaticity perception / kekule form: not comparable
+            ck.count('search:rdkit:target-skipped')
+            continue
+        for s, q, rq, order, nonbonded in qs:
+            want = set()
+            for match in rm.GetSubstructMatches(rq, uniquify=False, maxMatches=100000):
+                im = [i + 1 for i in match]
+                if all(im[j] not in t._bonds[im[i]] for i, j in nonbonded):      # chython's embeddings are induced
+                    want.add(tuple(im))
+            try:
+                got = [tuple(m[n] for n in order) for m in q.get_mapping(t, automorphism_filter=False, _cython=False)]
+                gotf = [frozenset(m.values()) for m in q.get_mapping(t, automorphism_filter=True, _cython=False)]
+            except Exception as e:  # noqa
+                got, gotf = type(e).__name__, []
+            ck.case(('search-rdkit', s, ttxt), nontrivial=bool(want))
+            ck.count(f'search:rdkit:{"hit" if want else "miss"}')
+            if got == type(got).__name__ or set(got) != want or len(got) != len(set(got)) or set(gotf) != {frozenset(w) for w in want} \
+                    or len(gotf) != len(set(gotf)):
+                ck.counterexample(f'rdkit:{s}>{ttxt}', 'query match differs from RDKit on the common SMARTS sub-language (atomic numbers, degree, bond '
+                                  'orders, ring marks @ / !@), induced embeddings only', {'smarts': s, 'target': ttxt},
+                                  sorted(got) if isinstance(got, list) else got, sorted(want), 'RDKit GetSubstructMatches(uniquify=False), re-filtered to induced matches',
+                                  replay_py=f'from chython import smiles, smarts; print(list(smarts({s!r}).get_mapping(smiles({ttxt!r}), automorphism_filter=False, _cython=False)))')
+
+
+RDKIT_TARGETS = ['CC1CC1', 'C1CCCCC1', 'CCCC', 'c1ccccc1-c1ccccc1', 'O=C1CCC(OC)O1', 'NCCC1CCNC1', 'CCC1CCCC1', 'C=C1CCC=C1', 'CC(=O)OC1CC1', 'c1ccncc1C',
+                 'C1CC2CC12', 'N#CC1CCC1', 'OC1CCOC1', 'CC(C)=O', 'c1ccc2ccccc2c1', 'C1=CCCC1C=C', 'OCC1CO1', 'CN1CCCC1=O', 'C1CC1C1CC1', 'CC=CC']
 
 
 def search_lazy_product(ck, n):
@@ -1013,12 +1278,14 @@ def search(ck):
     search_int(ck, 250 if ck.tier == 'quick' else 4000)
     search_lazy_product(ck, 200 if ck.tier == 'quick' else 3000)
     search_automorphism(ck, targets)
+    search_rdkit(ck, [(x, smiles(x)) for x in RDKIT_TARGETS] + [(x, m) for x, m in targets if '.' not in x])
     ck.extra['search_pairs'] = npairs
 
 
 def run(ck):
     ck.trusted += ['correspondence runner harness/checks/C07.py + harness/coqcases.py + harness/coqmol.py', 'CachedMethods shim harness/boot.py',
-                   'CPython 3.12.1', 'brute-force reference enumerator in harness/checks/C07.py (search only)']
+                   'CPython 3.12.1', 'brute-force reference enumerator and own primitive evaluators in harness/checks/C07.py (search only)',
+                   'RDKit 2026.3 SMARTS matcher (search only, common sub-language)']
     ck.assumptions += [
         'coq/model/Iso.v is a hand-written model of lazy_product, _compile_query, _get_mapping (recursive form of the explicit-stack loop), '
         'Isomorphism._get_mapping, is_substructure/is_equal/</<= and _get_automorphism_mapping; the tie is the correspondence of the whole '
